@@ -788,12 +788,12 @@ func dedup(ss []string) []string {
 // ---------------------------------------------------------------- list routines
 
 type listRoutine struct {
-	probs   []string
-	width   int // N, -1 string, -2 dispatch
-	load    int64
-	conv32  bool
-	desc    string
-	viaAny  bool
+	probs  []string
+	width  int // N, -1 string, -2 dispatch
+	load   int64
+	conv32 bool
+	desc   string
+	viaAny bool
 }
 
 func analyseListRoutine(c *Ctx, fn *ssa.Function) *listRoutine {
